@@ -123,7 +123,7 @@ def _z3_value(val):
         return None
 
 
-def solve(formulas, timeout_ms=10000, want_model=True, seed=0, portfolio=True):
+def solve(formulas, timeout_ms=10000, want_model=True, seed=0, portfolio=True, count=True):
     """returns (verdict, model) ; verdict in 'sat' 'unsat' 'unknown' ; model: var id -> Fraction"""
     import z3
 
@@ -151,9 +151,22 @@ def solve(formulas, timeout_ms=10000, want_model=True, seed=0, portfolio=True):
         else:
             raise RuntimeError(f"z3 rejected query: {e}\n{text[:2000]}")
     dt = time.time() - t0
-    STATS["queries"] += 1
     STATS["solver_s"] += dt
     verdict = str(r)
+    if not count:
+        # auxiliary (restricted) query: only its time is accounted
+        STATS["aux_queries"] = STATS.get("aux_queries", 0) + 1
+        model = None
+        if verdict == "sat" and want_model:
+            m = s.model()
+            byname = {d.name(): d for d in m.decls()}
+            model = {}
+            for v in vs:
+                d = byname.get(f"v{v}")
+                val = _z3_value(m[d]) if d is not None else None
+                model[v] = val if val is not None else Fraction(0)
+        return verdict, model
+    STATS["queries"] += 1
     model = None
     import os as _os
     if _os.environ.get("SYMX_LOGQ") and (verdict == "unknown" or dt > 1.0):
@@ -161,7 +174,8 @@ def solve(formulas, timeout_ms=10000, want_model=True, seed=0, portfolio=True):
         with open(_os.path.join(_os.environ["SYMX_LOGQ"], f"q{_os.getpid()}_{STATS['queries']}_{verdict}.smt2"), "w") as fh:
             fh.write(f"; {verdict} {dt:.2f}s timeout={timeout_ms}\n" + text + "\n(check-sat)\n")
     if verdict == "unknown" and portfolio:
-        v2, m2 = solve_cvc5(formulas, timeout_ms=max(int(timeout_ms), 4000), want_model=want_model)
+        res = solve_cvc5(formulas, timeout_ms=max(int(timeout_ms), 4000), want_model=want_model)
+        v2, m2 = res if isinstance(res, tuple) else (res, None)
         if v2 == "unsat" or (v2 == "sat" and (m2 is not None or not want_model)):
             STATS[v2] += 1
             STATS["by_cvc5"] = STATS.get("by_cvc5", 0) + 1
